@@ -30,7 +30,7 @@ from optilint.model import dotted
 from optilint.core import Incomplete
 from optilint.expr import Algebra, NotPolynomial
 from optilint.tensoreval import Dual, Arr, EvalError, Raised, _A, rat_is_zero
-from .common import src, same, calls_in, const_value, expand
+from .common import Unifier, src, same, calls_in, const_value, expand
 from . import materials as mt
 
 LEVEL = "other"
@@ -137,7 +137,12 @@ def a_dispatch(ctx):
                        bad_detail=f"mode2D='{mode}' selects {got}; expected volume function {vf} with isAxisymmetric={flag}")
         # the selected function / flag reach the constructor
         r = sc.returns()
-        ok = len(r) == 1 and isinstance(r[0], ast.Call) and [src(a) for a in r[0].args] == ["shapes", "vols", "shapeGrads", "mesh", "quadratureRule", "isAxisymmetric"]
+        u = Unifier(sc)
+        p_ = sc.params()
+        n1 = u.assigns(f"jax.vmap(lambda elConns, elShape: elShape, (0, None))({p_[0]}.conns, {p_[1]}.values)", target="shapes")
+        n2 = u.assigns(f"jax.vmap(map_element_shape_grads, (None, 0, None, None))({p_[0]}.coords, {p_[0]}.conns, {p_[0]}.parentElement, {p_[1]}.gradients)", target="shapeGrads")
+        n3 = u.assigns(f"jax.vmap(el_vols, (None, 0, None, 0, None))({p_[0]}.coords, {p_[0]}.conns, {p_[0]}.parentElement, shapes, {p_[2]}.wgauss)", target="vols")
+        ok = len(n1) == len(n2) == len(n3) == 1 and len(r) == 1 and u.match(r[0], f"FunctionSpace(shapes, vols, shapeGrads, {p_[0]}, {p_[2]}, isAxisymmetric)")
         ctx.decide(rule, ok, sc, r[0] if r else None, construct="FunctionSpace-fields", detail="FunctionSpace(shapes, vols, shapeGrads, mesh, quadratureRule, isAxisymmetric)",
                    bad_detail=f"FunctionSpace constructed as `{src(r[0]) if r else '?'}`")
 
@@ -193,21 +198,29 @@ def c_affine(ctx):
         cfg = cfg_of(mg)
         jd = [n for n in cfg.nodes if n.kind == "stmt" and isinstance(n.ast, ast.Assign) and (dotted(getattr(n.ast.value, "func", None)) or "").endswith("column_stack")]
         cols = jd[0].ast.value.args[0].elts
-        def pt(e, comp):
+        vname = {}
+        for sc_ in (mg, ev):
+            c_ = cfg_of(sc_)
+            vs_ = [n for n in c_.nodes if n.kind == "stmt" and isinstance(n.ast, ast.Assign) and "vertexNodes" in src(n.ast.value)]
+            vname[sc_.name] = vs_[0].ast.targets[0].id
+
+        def pt(e, comp, vn=None):
             # v[k] -> symbols vkx, vky
             class Rp(ast.NodeTransformer):
                 def visit_Subscript(self, s):
-                    if isinstance(s.value, ast.Name) and s.value.id == "v":
+                    if isinstance(s.value, ast.Name) and s.value.id == vn:
                         return ast.Name(id=f"v{const_value(s.slice)}{comp}", ctx=ast.Load())
                     return self.generic_visit(s)
             import copy
             return A.lower(Rp().visit(copy.deepcopy(e)))
-        J = [[pt(cols[0], "x"), pt(cols[1], "x")], [pt(cols[0], "y"), pt(cols[1], "y")]]
+        vm = vname[mg.name]
+        J = [[pt(cols[0], "x", vm), pt(cols[1], "x", vm)], [pt(cols[0], "y", vm), pt(cols[1], "y", vm)]]
         detJ = A.norm(J[0][0] * J[1][1] - J[0][1] * J[1][0])
         cfg2 = cfg_of(ev)
         jn = [n for n in cfg2.nodes if n.kind == "stmt" and isinstance(n.ast, ast.Assign) and (dotted(getattr(n.ast.value, "func", None)) or "").endswith("cross")]
         a_, b_ = jn[0].ast.value.args
-        jac = A.norm(pt(a_, "x") * pt(b_, "y") - pt(a_, "y") * pt(b_, "x"))
+        ve = vname[ev.name]
+        jac = A.norm(pt(a_, "x", ve) * pt(b_, "y", ve) - pt(a_, "y", ve) * pt(b_, "x", ve))
         ok = A.equal(detJ, jac)
         ctx.decide(rule, ok, ev, jn[0].ast, construct="det(J)==volume-jacobian", detail=f"det of the gradient map's Jacobian equals cross(...) = {jac!r}",
                    bad_detail=f"det J of map_element_shape_grads is {detJ!r} but compute_element_volumes uses {jac!r}: gradients and volumes belong to different affine maps")
@@ -219,23 +232,27 @@ def c_affine(ctx):
     # integration restricted by the same block
     iob = ctx.need(f"{FS}:integrate_over_block")
     r = iob.returns()
-    ok = len(r) == 1 and same(r[0], "np.dot(vals.ravel(), functionSpace.vols[block].ravel())")
-    vals = [s for s in ast.walk(iob.node) if isinstance(s, ast.Assign) and src(s.targets[0]) == "vals"]
+    u = Unifier(iob)
+    ok = len(r) == 1 and u.match(r[0], "np.dot(vals.ravel(), functionSpace.vols[block].ravel())")
+    vals = u.def_of("vals")
     ok = ok and len(vals) == 1 and "evaluate_on_block(functionSpace, U, stateVars, dt, func, block," in src(vals[0].value)
     ctx.decide(rule, ok, iob, r[0] if r else None, construct="integrate=dot(values[block], vols[block])", detail="same block restricts values and volumes",
                bad_detail="integrate_over_block does not contract the block's values with the block's volumes")
     # function space factory wires the same parent element / shapes to both maps
     cf = ctx.need(f"{FS}:construct_function_space_from_parent_element")
-    txt = src(cf.node)
-    ok = "jax.vmap(map_element_shape_grads, (None, 0, None, None))(mesh.coords, mesh.conns, mesh.parentElement, shapeOnRef.gradients)" in txt and \
-        "jax.vmap(el_vols, (None, 0, None, 0, None))(mesh.coords, mesh.conns, mesh.parentElement, shapes, quadratureRule.wgauss)" in txt
+    u = Unifier(cf)
+    p_ = cf.params()
+    calls_ = [c for c in ast.walk(cf.node) if isinstance(c, ast.Call)]
+    ok = any(u.match(c, f"jax.vmap(map_element_shape_grads, (None, 0, None, None))({p_[0]}.coords, {p_[0]}.conns, {p_[0]}.parentElement, {p_[1]}.gradients)") for c in calls_) and \
+        any(u.match(c, f"jax.vmap(el_vols, (None, 0, None, 0, None))({p_[0]}.coords, {p_[0]}.conns, {p_[0]}.parentElement, shapes, {p_[2]}.wgauss)") for c in calls_)
     ctx.decide(rule, ok, cf, None, construct="factory-wiring", detail="gradients and volumes mapped over the same coords/conns/parent element",
                bad_detail="construct_function_space_from_parent_element does not map gradients and volumes over the same coordinates, connectivity and parent element")
     c0 = ctx.need(f"{FS}:construct_function_space")
     r = c0.returns()
-    st = [s for s in ast.walk(c0.node) if isinstance(s, ast.Assign) and "compute_shapes" in src(s.value)]
-    ok = len(st) == 1 and same(st[0].value, "Interpolants.compute_shapes(mesh.parentElement, quadratureRule.xigauss)") and len(r) == 1 and \
-        same(r[0], "construct_function_space_from_parent_element(mesh, shapeOnRef, quadratureRule, mode2D)")
+    u = Unifier(c0)
+    q_ = c0.params()
+    st = u.assigns(f"Interpolants.compute_shapes({q_[0]}.parentElement, {q_[1]}.xigauss)", target="shapeOnRef")
+    ok = len(st) == 1 and len(r) == 1 and u.match(r[0], f"construct_function_space_from_parent_element({q_[0]}, shapeOnRef, {q_[1]}, {q_[2]})")
     ctx.decide(rule, ok, c0, st[0] if st else None, construct="shapes-at-the-rule's-points", detail="shape functions of the mesh's parent element at the rule's own points",
                bad_detail="construct_function_space does not evaluate the mesh's parent element at the quadrature rule's own points")
 
@@ -251,15 +268,17 @@ def e_axis_typing(ctx):
         body = lam[0].body
         dn = lam[0].args.args[0].arg
         shown = src(body)
-        ty = _type_axes(body, {"J": ("x", "xi"), dn: ("node", "xi")})
+        jn_ = [s_.targets[0].id for s_ in ast.walk(mg.node) if isinstance(s_, ast.Assign) and isinstance(s_.value, ast.Call)
+               and (dotted(s_.value.func) or "").endswith("column_stack") and isinstance(s_.targets[0], ast.Name)]
+        ty = _type_axes(body, {(jn_[0] if jn_ else "J"): ("x", "xi"), dn: ("node", "xi")})
         ok = True if ty == ("node", "x") else (False if ty is not None else None)
         shown += f" : {ty}"
     ctx.decide(rule, ok, mg, lam[0] if lam else None, construct="physical-gradients=[node,x]", detail=shown,
                bad_detail=f"`{shown}`: with J : [x, xi] and reference gradients : [node, xi] the mapped gradients must have axes [node, x] "
                           f"(both axes have length 2, so NumPy cannot catch the mix-up)")
     # J's columns are derivatives w.r.t. xi_k: differences of vertices
-    jd = [s for s in ast.walk(mg.node) if isinstance(s, ast.Assign) and src(s.targets[0]) == "J"]
-    ok = len(jd) == 1 and (dotted(jd[0].value.func) or "").endswith("column_stack")
+    jd = [s for s in ast.walk(mg.node) if isinstance(s, ast.Assign) and isinstance(s.value, ast.Call) and (dotted(s.value.func) or "").endswith("column_stack")]
+    ok = len(jd) == 1 and any(isinstance(n_, ast.Name) and n_.id == src(jd[0].targets[0]) for l_ in lam for n_ in ast.walk(l_.body))
     ctx.decide(rule, ok, mg, jd[0] if jd else None, construct="J-columns-are-parametric-directions", detail="J = column_stack((dx/dxi0, dx/dxi1))",
                bad_detail="J is not assembled with the parametric directions as columns")
     sg = ctx.need(f"{FS}:compute_quadrature_point_field_gradient")
@@ -341,10 +360,12 @@ def f_tables(ctx):
             ctx.undecided(rule, tri, None, construct="branch", detail="branch condition is not a bound on `degree`")
             continue
         xi = w = None
+        rr_ = tri.returns()
+        names_ = [src(a) for a in rr_[0].args[:2]] if rr_ and isinstance(rr_[0], ast.Call) and len(rr_[0].args) >= 2 else ["xi", "w"]
         for s in body:
-            if isinstance(s, ast.Assign) and src(s.targets[0]) == "xi":
+            if isinstance(s, ast.Assign) and src(s.targets[0]) == names_[0]:
                 xi = s.value
-            if isinstance(s, ast.Assign) and src(s.targets[0]) == "w":
+            if isinstance(s, ast.Assign) and src(s.targets[0]) == names_[1]:
                 w = s.value
         try:
             X, W = _literal_array(xi), _literal_array(w)
@@ -401,7 +422,7 @@ def f_tables(ctx):
     r = ei.returns()
     cfg = cfg_of(ei)
     e = expand(cfg, cfg.returns()[0], r[0]) if r else None
-    ok = e is not None and same(e, "np.array([field[0, :] + (field[1, :] - field[0, :]) * xi for xi in xigauss])")
+    ok = e is not None and Unifier(ei).match(e, f"np.array([{ei.params()[1]}[0, :] + ({ei.params()[1]}[1, :] - {ei.params()[1]}[0, :]) * xi for xi in {ei.params()[0]}])")
     ctx.decide(rule, ok, ei, r[0] if r else None, construct="eval_at_iso_points", detail="f0 + (f1 - f0) xi at every point",
                bad_detail=f"eval_at_iso_points is `{src(e) if e is not None else '?'}`")
 
@@ -432,34 +453,42 @@ def g_edges(ctx):
     cfg = cfg_of(ie)
     fsn, fn, U, qr, edge = ie.params()
     r = cfg.returns()
-    ok = len(r) == 1 and same(r[0].ast.value, "np.dot(integrand, jac*quadRule.wgauss)".replace("quadRule", qr))
+    u = Unifier(ie)
+    want = [
+        ("uq", f"interpolate_nodal_field_on_edge({fsn}, {U}, {qr}.xigauss, {edge})"),
+        ("Xq", f"interpolate_nodal_field_on_edge({fsn}, {fsn}.mesh.coords, {qr}.xigauss, {edge})"),
+        ("edgeCoords", f"Mesh.get_edge_coords({fsn}.mesh, {edge})"),
+    ]
+    for nm, tmpl in want:
+        hit = u.assigns(tmpl, target=nm)
+        ctx.decide(rule, len(hit) == 1, ie, hit[0] if hit else None, construct=f"role:{nm}", detail=tmpl,
+                   bad_detail=f"no assignment `{nm} = {tmpl}` (up to names of locals) in integrate_function_on_edge: found " +
+                              "; ".join(src(s_)[:80] for s_ in ast.walk(ie.node) if isinstance(s_, ast.Assign) and tmpl.split("(")[0].split(".")[-1] in src(s_.value))[:200])
+    tup = [s_ for s_ in ast.walk(ie.node) if isinstance(s_, ast.Assign) and isinstance(s_.targets[0], ast.Tuple) and "compute_edge_vectors" in src(s_.value)]
+    ok = len(tup) == 1 and u.match(tup[0], ast.parse(f"_, normal, jac = Mesh.compute_edge_vectors({fsn}.mesh, edgeCoords)").body[0])
+    ctx.decide(rule, ok, ie, tup[0] if tup else None, construct="normal-and-jacobian-from-edge-vectors", detail="(_, normal, jac) = Mesh.compute_edge_vectors(mesh, edgeCoords)",
+               bad_detail=f"`{src(tup[0]) if tup else '?'}`: tangent/normal/jacobian are not unpacked as (_, normal, jac) from Mesh.compute_edge_vectors(mesh, edge coordinates)")
+    hit = u.assigns(f"jax.vmap({fn}, (0, 0, None))(uq, Xq, normal)", target="integrand")
+    ctx.decide(rule, len(hit) == 1, ie, hit[0] if hit else None, construct="role:integrand", detail="f(u_q, X_q, n) at every quadrature point",
+               bad_detail="the integrand is not jax.vmap(func, (0, 0, None))(interpolated field, interpolated coordinates, edge normal)")
+    ok = len(r) == 1 and u.match(r[0].ast.value, f"np.dot(integrand, jac*{qr}.wgauss)")
     ctx.decide(rule, ok, ie, r[0].ast if r else None, construct="weights=jacobian*gauss-weights", detail="dot(integrand, jac*w)",
                bad_detail=f"edge integral is `{src(r[0].ast.value) if r else '?'}`")
-    want = {
-        "uq": f"interpolate_nodal_field_on_edge({fsn}, {U}, {qr}.xigauss, {edge})",
-        "Xq": f"interpolate_nodal_field_on_edge({fsn}, {fsn}.mesh.coords, {qr}.xigauss, {edge})",
-        "edgeCoords": f"Mesh.get_edge_coords({fsn}.mesh, {edge})",
-        "integrand": f"jax.vmap({fn}, (0, 0, None))(uq, Xq, normal)",
-    }
-    for s in ast.walk(ie.node):
-        if isinstance(s, ast.Assign) and isinstance(s.targets[0], ast.Name) and s.targets[0].id in want:
-            nm = s.targets[0].id
-            ctx.decide(rule, same(s.value, want[nm]), ie, s, construct=f"role:{nm}", detail=want[nm], bad_detail=f"`{nm} = {src(s.value)}`; expected `{want[nm]}`")
-        if isinstance(s, ast.Assign) and isinstance(s.targets[0], ast.Tuple) and "compute_edge_vectors" in src(s.value):
-            names = [src(t) for t in s.targets[0].elts]
-            ok = names == ["_", "normal", "jac"] and same(s.value, f"Mesh.compute_edge_vectors({fsn}.mesh, edgeCoords)")
-            ctx.decide(rule, ok, ie, s, construct="normal-and-jacobian-from-edge-vectors", detail="(_, normal, jac) = Mesh.compute_edge_vectors(mesh, edgeCoords)",
-                       bad_detail=f"`{src(s)}`: tangent/normal/jacobian are unpacked in the wrong order or from another source")
     io = ctx.need(f"{FS}:interpolate_nodal_field_on_edge")
     r2 = io.returns()
-    ok = len(r2) == 1 and same(r2[0], "edgeShapes.values.T@edgeU")
-    s1 = [s for s in ast.walk(io.node) if isinstance(s, ast.Assign) and src(s.targets[0]) == "edgeShapes"]
-    ok = ok and len(s1) == 1 and same(s1[0].value, f"Interpolants.compute_shapes({io.params()[0]}.mesh.parentElement1d, {io.params()[2]})")
+    u2 = Unifier(io)
+    s1 = u2.assigns(f"Interpolants.compute_shapes({io.params()[0]}.mesh.parentElement1d, {io.params()[2]})", target="edgeShapes")
+    s2 = u2.assigns(f"get_nodal_values_on_edge({io.params()[0]}, {io.params()[1]}, {io.params()[3]})", target="edgeU")
+    ok = len(s1) == 1 and len(s2) == 1 and len(r2) == 1 and u2.match(r2[0], "edgeShapes.values.T@edgeU")
     ctx.decide(rule, ok, io, r2[0] if r2 else None, construct="edge-interpolation-with-1d-parent-element", detail="shapes of parentElement1d at the given points, contracted with the edge's nodal values",
                bad_detail="interpolate_nodal_field_on_edge does not use the 1D parent element's shape functions at the given points")
     gn = ctx.need(f"{FS}:get_nodal_values_on_edge")
-    txt = src(gn.node)
-    ok = "faceNodes[edge[1], :]" in txt and "conns[edge[0], edgeNodes]" in txt
+    u3 = Unifier(gn)
+    g_ = gn.params()
+    subs_ = [x for x in ast.walk(gn.node) if isinstance(x, ast.Subscript)]
+    ok = any(u3.match(x, f"{g_[0]}.mesh.parentElement.faceNodes[{g_[2]}[1], :]") for x in subs_)
+    ok = ok and len(u3.assigns(f"{g_[0]}.mesh.parentElement.faceNodes[{g_[2]}[1], :]", target="edgeNodes")) == 1
+    ok = ok and any(u3.match(x, f"{g_[0]}.mesh.conns[{g_[2]}[0], edgeNodes]") for x in subs_)
     ctx.decide(rule, ok, gn, None, construct="edge-nodes=conns[element, faceNodes[side]]", detail="edge = (element, local side)",
                bad_detail="get_nodal_values_on_edge does not gather conns[edge[0], faceNodes[edge[1]]]")
     ies = ctx.need(f"{FS}:integrate_function_on_edges")
